@@ -18,7 +18,12 @@ for name in names:
         env = dict(os.environ, VERIF_REPO=wt)
         props = [meta['property']] + meta.get('also_run', [])
         for prop in props:
-            p = subprocess.run(['./check', prop, '--tier', 'quick', '--no-build'], cwd=V, env=env, stdout=subprocess.PIPE, stderr=subprocess.STDOUT, text=True, timeout=2400)
+            try:
+                p = subprocess.run(['./check', prop, '--tier', 'quick', '--no-build'], cwd=V, env=env, stdout=subprocess.PIPE, stderr=subprocess.STDOUT, text=True, timeout=6000)
+            except subprocess.TimeoutExpired:
+                det.setdefault(name, {})[prop] = dict(rc=None, detected=False, with_failing_input=False, first='the check did not finish within 6000 s')
+                print(name, prop, 'NO VERDICT (timeout)', flush=True)
+                continue
             lines = [l for l in p.stdout.split('\n') if l.startswith('VIOLATION')]
             nxt = p.stdout.split('\n')
             what = ''
